@@ -745,7 +745,7 @@ setup(name="c05_{tag}", ext_modules=mypycify(files, opt_level={opt!r}, multi_fil
 '''
 
 
-def compile_and_run(work: str, files: dict[str, str], driver: str, cfg: dict, timeout: int = 900) -> dict:
+def compile_and_run(work: str, files: dict[str, str], driver: str, cfg: dict, timeout: int = 7200) -> dict:
     """Returns {'status': 'ok'|'compile-failed'|..., 'interp': str, 'compiled': str, ...}."""
     os.makedirs(work, exist_ok=True)
     src = os.path.join(work, "src")
@@ -778,7 +778,7 @@ def compile_and_run(work: str, files: dict[str, str], driver: str, cfg: dict, ti
     outs = {}
     for mode, d, want in (("interp", pyd, ".py"), ("compiled", sod, ".so")):
         e = vlib.py_env({"PYTHONPATH": d + os.pathsep + vlib.REPO})
-        st, o = vlib.sh([vlib.PY, "driver.py", want], cwd=d, env=e, timeout=900)
+        st, o = vlib.sh([vlib.PY, "driver.py", want], cwd=d, env=e, timeout=3600)
         outs[mode] = (st, o)
     res.update(status="ok", interp=outs["interp"], compiled=outs["compiled"])
     return res
@@ -947,7 +947,7 @@ def run_diff(ctx: vlib.Ctx, hiers: list | None = None) -> None:
 def _run_diff(ctx: vlib.Ctx, hiers: list, tmp: str) -> None:
     rng = vlib.Rng(ctx.seed, "c05diff")
     hist: dict[str, int] = {}
-    nsets = ctx.n(2, 8)
+    nsets = ctx.n(2, 6)
     # hierarchies with traits + overriding preferred
     interesting = list(hiers)
     sets = []
@@ -963,7 +963,7 @@ def _run_diff(ctx: vlib.Ctx, hiers: list, tmp: str) -> None:
     ctx.cov["runtest_selected_total"] = len(cases)
     ctx.cov["runtest_skipped"] = skipped
     rng.shuffle(cases)
-    for c in cases[: ctx.n(4, 120)]:
+    for c in cases[: ctx.n(4, 60)]:
         jobs.append(("case", c, CONFIGS[1] if rng.random() < 0.5 else CONFIGS[0]))
     t0 = time.time()
 
